@@ -55,7 +55,7 @@ ALL_PROPS = ["C03_MutatorFrame", "C06_BookkeepingOnly", "C08_PhaseProtocol"]
 
 def heap_constants(n_obj=2, kinds=("N",), budgets=(1, 2), grans=("P1", "P2"), max_ops=0, emit="none",
                    vias=("mutate_root",), max_kids=2, max_weak=1, barrier_only=False, finalize=True, drop=True,
-                   many=False, fault_ats=(), max_handles=0, weak=True, unlink=True, debt_calls=True, leak=False, dfault_ats=()):
+                   many=False, fault_ats=(), max_handles=0, weak=True, unlink=True, debt_calls=True, leak=False, dfault_ats=(), prelude=""):
     objs = ", ".join(f"o{i + 1}" for i in range(n_obj))
     return {
         "Obj": "{" + objs + "}", "NoObj": "NoObj", "MaxKids": max_kids, "MaxWeak": max_weak,
@@ -66,18 +66,19 @@ def heap_constants(n_obj=2, kinds=("N",), budgets=(1, 2), grans=("P1", "P2"), ma
         "FaultAts": tla_set(fault_ats, quote=False), "MaxHandles": max_handles,
         "WithWeak": "TRUE" if weak else "FALSE", "WithUnlink": "TRUE" if unlink else "FALSE",
         "WithDebtCalls": "TRUE" if debt_calls else "FALSE", "WithLeak": "TRUE" if leak else "FALSE",
-        "DFaultAts": tla_set(dfault_ats, quote=False),
+        "DFaultAts": tla_set(dfault_ats, quote=False), "Prelude": f'"{prelude}"',
     }
 
 
 def heap_cfg(constants, emit):
+    sym = None if constants.get("Prelude", '""') != '""' else "Perms"     # a scripted prefix names objects: no symmetry
     if emit == "walks":
         # random walks (tlc -simulate): no state constraint (it would make TLC re-draw the last step)
         return cfg_text(spec="SpecEmit", constants=constants, invariants=ALL_INVS + ["EmitStates"], view="vw")
     return cfg_text(spec="SpecEmit", constants=constants, invariants=ALL_INVS + (["EmitStates"] if emit == "states" else []),
                     properties=ALL_PROPS, constraints=["Bounded"],
                     action_constraints=(["EmitClasses"] if emit in ("classes", "pairs") else []),
-                    symmetry="Perms", view="vwp" if emit == "pairs" else "vw")
+                    symmetry=sym, view="vwp" if emit == "pairs" else "vw")
 
 
 def model_error(r):
@@ -100,7 +101,7 @@ def core_models(tier, d):
     the specification only (never on /repo), so it is memoised under a hash of spec/."""
     tlc_runs = []
     beh_files = []
-    workers = 7
+    workers = 5
     quick = tier == "quick"
 
     def run(name, module, cfg, per_class, limit, timeout, sim=None):
@@ -150,7 +151,7 @@ def core_models(tier, d):
                                        unlink=False, debt_calls=False, drop=False, max_ops=12), None, 12000 if quick else 120000, 3000,
          ("num=600" if quick else "num=6000", 13)),
         # (4b) consequences: one witness per (class of transition, operation that follows it)
-        ("n2_pairs", "MC_GcHeap", hc("pairs", n_obj=2, many=True, max_ops=5 if quick else 7), 1, None, 6000),
+        ("n2_pairs", "MC_GcHeap", hc("pairs", n_obj=2, many=True, max_ops=5 if quick else 6), 1, None, 6000),
         # (4c) a RefLock frozen by a leaked RefMut (safe code): tracing it must panic, never skip it
         ("n2_leak", "MC_GcHeap", hc("pairs", n_obj=2, leak=True, finalize=False, drop=False, debt_calls=False, budgets=(1,),
                                     grans=("P1",), max_ops=5 if quick else 7), 1, None, 3000),
@@ -158,6 +159,15 @@ def core_models(tier, d):
         #      resumed afterwards: nothing is destructed twice, is_dropped stays exact
         ("n2_dfaults", "MC_GcHeap", hc("classes", n_obj=2, dfault_ats=(0, 1), finalize=False, grans=("P1",),
                                        max_ops=6 if quick else 8), 2, None, 3000),
+        # (4e) three objects, DEEP: exhaustive exploration (pair witnesses) of what can follow a scripted prelude that
+        #      builds a heap breadth-first search cannot afford to reach (a dead shell weakly held by one of two rooted
+        #      nodes; weakly held garbage one cycle earlier; a chain that survived a cycle)
+        ("n3_shell", "MC_GcHeap", hc("pairs", n_obj=3, finalize=False, drop=False, budgets=(1,), grans=("P1",),
+                                     prelude="shell", max_ops=6 + (3 if quick else 4)), 1, None, 3000),
+        ("n3_weakgarbage", "MC_GcHeap", hc("pairs", n_obj=3, finalize=False, drop=False, budgets=(1,), grans=("P1",),
+                                           prelude="weakgarbage", max_ops=6 + (3 if quick else 4)), 1, None, 3000),
+        ("n3_chain", "MC_GcHeap", hc("pairs", n_obj=3, finalize=False, drop=False, budgets=(1,), grans=("P1",),
+                                     prelude="chain", max_ops=4 + (2 if quick else 4)), 1, None, 3000),
         # (5) two arenas on one thread (C20): interleavings of a reduced menu
         ("two_arenas", "TwoArenas", two_arenas_cfg(4 if quick else 5), None, 12000 if quick else 200000, 3000),
         # (5a) one arena after the other on the same thread, dynamic-root handles of the first surviving it: with the
@@ -169,10 +179,10 @@ def core_models(tier, d):
         jobs.append(("n2_states", "MC_GcHeap", hc("states", n_obj=2), None, None, 3000))
         # (7) N3, every behaviour of at most 6 operations, class witnesses
         jobs.append(("n3_k6", "MC_GcHeap", hc("classes", n_obj=3, max_ops=6, many=True), 3, None, 3600))
-    par = 2
+    par = 3
     from concurrent.futures import ThreadPoolExecutor
     # longest first, so that the two lanes finish together
-    first = ["n2_pairs", "n3_dyn", "n3_k6", "n2_states", "n2_classes"]
+    first = ["n3_dyn", "n3_k6", "n2_states", "n2_classes", "n2_pairs", "n3_weakgarbage", "n2_kinds", "n3_chain"]
     sched = sorted(jobs, key=lambda j: first.index(j[0]) if j[0] in first else len(first))
     with ThreadPoolExecutor(max_workers=par) as ex:
         list(ex.map(lambda j: run(*j), sched))
@@ -332,7 +342,7 @@ def check_core(prop, tier):
     viols = [v for v in m["viol"] if v["prop"] in decides]
     if prop == "C14":
         # keeps alive / becomes collectable: the C01 / C02 / C05 rules on the dynamic-root executions
-        viols += [v for v in m["viol"] if v["prop"] in ("C01", "C02", "C05") and v["source"].startswith("n3_dyn")]
+        viols += [v for v in m["viol"] if v["prop"] in ("C01", "C02", "C05") and v["source"].startswith(("n3_dyn", "n2_dynwalk"))]
     if prop == "C20":
         # a crash that needs the history of earlier arenas of the same thread is shared state between arenas
         viols += [v for v in m["viol"] if v["rule"] == "crash" and (v.get("extra") or {}).get("crash", {}).get("how") in ("with-history", "unconfirmed")
